@@ -1,1 +1,138 @@
-fn main(){println!("hi");}
+//! agverif: harness tying the Coq models in /verif/coq to /repo's current working tree.
+//!   agverif params                      -> Gen/Params.v on stdout
+//!   agverif gen <ID> <tier> <seed> <outdir> [shards]
+//!        runs the implementation on generated cases and writes <outdir>/cases_<k>.v
+//!        (cases + implementation outputs as Coq terms), descr.txt and stats.json
+mod coqfmt;
+mod params;
+mod rng;
+mod c15;
+
+use std::fs;
+use std::io::Write;
+
+#[derive(Clone, Copy, PartialEq, Eq, Debug)]
+pub enum Tier {
+    Quick,
+    Thorough,
+}
+
+#[derive(Default)]
+pub struct Stats {
+    pub evaluations: u64,
+    pub distinct_nontrivial: u64,
+    pub rule: String,
+    pub samples: Vec<String>,
+    pub distribution: Vec<(String, String)>,
+    /// violations decided by the harness itself (e.g. panics): (case id, signature)
+    pub harness_findings: Vec<(u64, String)>,
+}
+
+pub struct CaseSet {
+    pub header: String,
+    /// Coq function of type `list case -> list (N * N * N)`
+    pub runner: String,
+    pub cases: Vec<String>,
+    pub descr: Vec<String>,
+    /// failure signatures per (case, sub-case) used to match KNOWN_FINDINGS entries
+    pub sigs: Vec<(u64, u64, String)>,
+    pub stats: Stats,
+}
+
+fn json_str(s: &str) -> String {
+    let mut o = String::from("\"");
+    for c in s.chars() {
+        match c {
+            '"' => o.push_str("\\\""),
+            '\\' => o.push_str("\\\\"),
+            '\n' => o.push_str("\\n"),
+            '\t' => o.push_str("\\t"),
+            c if (c as u32) < 0x20 => o.push_str(&format!("\\u{:04x}", c as u32)),
+            c => o.push(c),
+        }
+    }
+    o.push('"');
+    o
+}
+
+fn write_caseset(cs: &CaseSet, outdir: &str, shards: usize) {
+    let mut f = fs::File::create(format!("{}/sigs.tsv", outdir)).expect("create");
+    for (c, s, sig) in &cs.sigs {
+        writeln!(f, "{}\t{}\t{}", c, s, sig).unwrap();
+    }
+    drop(f);
+    fs::create_dir_all(outdir).expect("mkdir");
+    let n = cs.cases.len();
+    let shards = shards.max(1).min(n.max(1));
+    for k in 0..shards {
+        let mut f = fs::File::create(format!("{}/cases_{}.v", outdir, k)).expect("create");
+        writeln!(f, "From Coq Require Import List NArith String Bool ZArith.").unwrap();
+        writeln!(f, "{}", cs.header).unwrap();
+        writeln!(f, "Import ListNotations.").unwrap();
+        writeln!(f, "Definition cases := [").unwrap();
+        let mine: Vec<&String> = cs.cases.iter().enumerate().filter(|(i, _)| i % shards == k).map(|(_, c)| c).collect();
+        for (i, c) in mine.iter().enumerate() {
+            writeln!(f, "  {}{}", c, if i + 1 < mine.len() { ";" } else { "" }).unwrap();
+        }
+        writeln!(f, "].").unwrap();
+        writeln!(f, "Eval vm_compute in ({} cases).", cs.runner).unwrap();
+    }
+    let mut f = fs::File::create(format!("{}/descr.txt", outdir)).expect("create");
+    for d in &cs.descr {
+        writeln!(f, "{}", d).unwrap();
+    }
+    let mut f = fs::File::create(format!("{}/cases.txt", outdir)).expect("create");
+    for c in &cs.cases {
+        writeln!(f, "{}", c).unwrap();
+    }
+    let s = &cs.stats;
+    let mut j = String::from("{");
+    j.push_str(&format!("\"evaluations\": {}, \"distinct_nontrivial\": {}, \"shards\": {}, \"cases\": {}, ", s.evaluations, s.distinct_nontrivial, shards, n));
+    j.push_str(&format!("\"rule\": {}, ", json_str(&s.rule)));
+    j.push_str("\"samples\": [");
+    j.push_str(&s.samples.iter().map(|x| json_str(x)).collect::<Vec<_>>().join(", "));
+    j.push_str("], \"input_distribution\": {");
+    j.push_str(&s.distribution.iter().map(|(k, v)| format!("{}: {}", json_str(k), json_str(v))).collect::<Vec<_>>().join(", "));
+    j.push_str("}, \"harness_findings\": [");
+    j.push_str(&s.harness_findings.iter().map(|(c, sig)| format!("[{}, {}]", c, json_str(sig))).collect::<Vec<_>>().join(", "));
+    j.push_str("]}");
+    fs::write(format!("{}/stats.json", outdir), j).expect("write stats");
+}
+
+fn main() {
+    let args: Vec<String> = std::env::args().collect();
+    if args.len() < 2 {
+        eprintln!("usage: agverif params | gen <ID> <quick|thorough> <seed> <outdir> [shards]");
+        std::process::exit(2);
+    }
+    match args[1].as_str() {
+        "params" => print!("{}", params::params()),
+        "gen" => {
+            let id = args[2].as_str();
+            let tier = if args[3] == "thorough" { Tier::Thorough } else { Tier::Quick };
+            let seed: u64 = args[4].parse().expect("seed");
+            let outdir = &args[5];
+            let shards: usize = args.get(6).map(|s| s.parse().expect("shards")).unwrap_or(16);
+            // keep panics of the implementation from aborting the harness; generators use catch_unwind
+            std::panic::set_hook(Box::new(|_| {}));
+            let cs = match id {
+                "C15" => c15::generate(seed, tier),
+                _ => {
+                    eprintln!("unknown property {}", id);
+                    std::process::exit(2);
+                }
+            };
+            let mut cs = cs;
+            if let Some(pos) = args.iter().position(|a| a == "--only") {
+                let only: usize = args[pos + 1].parse().expect("case id");
+                cs.cases = vec![cs.cases[only].clone()];
+                cs.descr = vec![cs.descr.get(only).cloned().unwrap_or_default()];
+            }
+            write_caseset(&cs, outdir, shards);
+        }
+        _ => {
+            eprintln!("unknown command");
+            std::process::exit(2);
+        }
+    }
+}
